@@ -213,6 +213,11 @@ func probe(s *inproc.Server, fd *feed) *pbt.Violation {
 	if v := bystander(s, fd); v != nil {
 		return v
 	}
+	if fd != nil && fd.key%3 != 0 {
+		// the bystander pair has just shown that the server relays; whether NEW sessions can still join is probed in
+		// every third case (chosen by a function of the case, so that a replay does the same)
+		return nil
+	}
 	sub := lalclient.NewRtmpSub(s, "live", "c13probe")
 	if err := sub.JoinErr(); err != nil {
 		if v := s.PanicViolation(); v != nil {
